@@ -343,9 +343,25 @@ class Eval:
         if fn == "torch.outer" and len(args) == 2:
             a, b = as_t(args[0]), as_t(args[1])
             return T((a.shape[0], b.shape[0]), [x * y for x in a.data for y in b.data])
+        if fn in ("torch.stack", "torch.tensor", "torch.as_tensor", "torch.hstack") and args and isinstance(args[0], (list, tuple)):
+            seq = [as_t(x) for x in args[0]]
+            dim = kw.get("dim", args[1] if len(args) > 1 and fn == "torch.stack" else 0)
+            if seq and all(x.shape in ((), (1,)) for x in seq) and (dim in (0, -1) or fn != "torch.stack"):
+                if fn == "torch.stack" and any(x.shape == (1,) for x in seq):
+                    return T((len(seq), 1), [x.data[0] for x in seq])
+                return T((len(seq),), [x.data[0] for x in seq])
+            if fn == "torch.stack" and seq and all(x.ndim == 1 and x.shape == seq[0].shape for x in seq):
+                n_ = seq[0].shape[0]
+                if dim == 0:
+                    return T((len(seq), n_), [v for x in seq for v in x.data])
+                if dim in (1, -1):
+                    return T((n_, len(seq)), [x.data[i] for i in range(n_) for x in seq])
+            raise SymUnsupported(U(e))
         if fn == "torch.cat" and args:
             seq = list(args[0])
             dim = kw.get("dim", args[1] if len(args) > 1 else 0)
+            if all(isinstance(x, T) and x.ndim == 1 for x in seq) and dim in (0, -1):
+                return T((sum(x.shape[0] for x in seq),), [v for x in seq for v in x.data])
             if all(isinstance(x, T) and x.ndim == 2 for x in seq) and dim in (1, -1):
                 rows = seq[0].shape[0]
                 if any(x.shape[0] != rows for x in seq):
